@@ -4,6 +4,7 @@ import Rare.Model.C01Classify
 import Rare.Model.C01Trim
 import Rare.Model.PipelineTrace
 import Rare.Model.C01Summary
+import Rare.Model.C01FilterLine
 import Rare.Model.C01Flags
 import Rare.Model.C01Chunk
 import Rare.Drv.Expr
@@ -216,9 +217,10 @@ def flagsOp : List String → String
     | _, _, _, _ => "bad-args"
   | _ => "bad-args"
 
-/-- `filtern <limit> <fmt> <input> <ignores> <extract>`: `rare filter -n limit` over ONE file with one reader and one
-    worker (so the matches arrive in input order): the printed keys and the stderr line. -/
-def filterOp : List String → String
+/-- `filtern <limit> <fmt> <input> <ignores> <extract> [l]`: `rare filter -n limit` (with `l`: `--line`) over ONE file
+    with one reader and one worker (so the matches arrive in input order): the printed lines (keys, with `l` behind
+    `"<source> <number>: "`) and the stderr line. -/
+def filterOpL (withLine : Bool) : List String → String
   | [limit, fmt, inp, ig, ex] =>
     match limit.toInt?, bit fmt, Hex.dec inp, parseClsSpec "a" ig ex with
     | some limit, some fmt, some data, some spec =>
@@ -233,11 +235,15 @@ def filterOp : List String → String
           -- `uint64(c.Int64("num"))`
           let lim : Nat := if limit < 0 then (18446744073709551616 + limit).toNat else limit.toNat
           let t := seqTotals (clsOf e) ls
-          let keys := (seqMatches (clsOf e) ls).map (keyOf e)
+          let keys := (seqMatches (clsOf e) ls).map fun l => filterLine withLine false (sourceName true l.src) l.num (keyOf e l)
           let printed := filterLoop lim [keys] []
           s!"ok out={hexList printed} err={Hex.enc (filterSummary fmt false lim printed.length t.matched t.read t.ignored)}"
     | _, _, _, _ => "bad-args"
   | _ => "bad-args"
+
+def filterOp : List String → String
+  | [limit, fmt, inp, ig, ex, "l"] => filterOpL true [limit, fmt, inp, ig, ex]
+  | args => filterOpL false args
 
 /-! ### `pipex`: sources that are not all well-behaved files; the exit state; the summary with errors -/
 
